@@ -277,7 +277,9 @@ impl EqualityConstraint {
     /// // Normalizes to: -2x + y - 3z = 4
     /// ```
     pub fn new(coefficients: Vec<f64>, rhs: f64) -> EqualityConstraint {
-        match float_lt(rhs, 0.0) {
+        // exact sign test: with the tolerance of `float_lt` a right-hand side in (-1e-5, 0)
+        // was left negative, although the simplex start requires b >= 0
+        match rhs < 0.0 {
             true => EqualityConstraint {
                 coefficients: coefficients.iter().map(|c| c * -1.0).collect(),
                 rhs: -rhs,
